@@ -173,6 +173,10 @@ def ref_domain(t, w, ctx):
         return hashable(w) and any(safe_eq(V.build_value(k, ctx), w) for k, _ in t[1:])
     if h in ("Tuple", "BaseTuple"):
         return isinstance(w, tuple) and len(w) == len(t) - 1 and all(ref_domain(a, x, ctx) for a, x in zip(t[1:], w))
+    if h == "ValidatedTuple":
+        if not (type(w) is tuple and len(w) == len(t) - 2 and all(ref_domain(a, x, ctx) for a, x in zip(t[2:], w))):
+            return False
+        return t[1] == "N" or bool(V.PREDS[int(t[1])](w))
     if h == "Instance":
         c = V.build_type(t[1], ctx)
         mode = int(t[3])
@@ -281,6 +285,12 @@ def conv_ok(t, v, w, ctx):
         return conv_ok("Int", v, w, ctx)
     if h in ("Enum", "EnumH", "Map", "MapH", "Type", "This", "Callable", "InstanceH"):
         return w is v
+    if h == "ValidatedTuple":
+        # element-wise documented conversion, in a real tuple (exact element types are checked by the members)
+        if isinstance(v, list):
+            v = tuple(v)
+        return (isinstance(v, tuple) and type(w) is tuple and len(v) == len(w) == len(t) - 2
+                and all(conv_ok(a, x, y, ctx) for a, x, y in zip(t[2:], v, w)))
     if h in ("Tuple", "BaseTuple"):
         if h == "BaseTuple" and isinstance(v, list):
             v = tuple(v)
@@ -391,9 +401,10 @@ def acceptor(t, value, stored, ctx, obj):
             out, r, _ = V.show_outcome(lambda: ct.validate(obj, "x", value), ctx)
             if out.startswith("ok ") and same(r, stored, ctx):
                 return acceptor(m, value, stored, ctx, obj)
-    elif isinstance(t, list) and t[0] in ("Tuple", "BaseTuple") and isinstance(value, (tuple, list)) \
-            and isinstance(stored, tuple) and len(value) == len(stored) == len(t) - 1:
-        for m, x, y in zip(t[1:], value, stored):
+    elif isinstance(t, list) and t[0] in ("Tuple", "BaseTuple", "ValidatedTuple") and isinstance(value, (tuple, list)) \
+            and isinstance(stored, (tuple, list)) \
+            and len(value) == len(stored) == len(t) - (2 if t[0] == "ValidatedTuple" else 1):
+        for m, x, y in zip(t[2:] if t[0] == "ValidatedTuple" else t[1:], value, stored):
             if not ref_domain(m, y, ctx) or not conv_ok(m, x, y, ctx):
                 return acceptor(m, x, y, ctx, obj)
     return t, value, stored
